@@ -18,13 +18,18 @@ TOL = Fraction(1, 10 ** 9)
 
 
 # ------------------------------------------------------------------ oracles (functions of the history spec)
-def sample_fn(salt):
+def sample_fn(salt, big=False):
     def sample(l, n):
         tag = l * 4096 + n + 1                      # unique per (level, index), never 0
         f = tag / 1024.0 + ((n * 5 + l * 3 + salt) % 13) / 2.0   # spread, still unique within a level (n < 512)
         delta = ((n * 7 + l * 13 + salt) % 17) - 8
         return (f, f - delta / 8.0)
-    return sample
+
+    def sample_big(l, n):                           # unique within a level for any n (multi-process runs with > 10 000 paths)
+        f = (n + 1) / 1024.0 + 16.0 * l
+        delta = ((n * 7 + l * 13 + salt) % 17) - 8
+        return (f, f - delta / 8.0)
+    return sample_big if big else sample
 
 
 def cost_fn(ctab):
@@ -34,7 +39,7 @@ def cost_fn(ctab):
 def raw_value(spec, l, n):
     """(fine, coarse) value of the path at maturity: scripted sample + the deterministic path of the path manager that
     belongs to this pricing (epoch) and level"""
-    f, c = sample_fn(spec["salt"])(l, n)
+    f, c = sample_fn(spec["salt"], spec.get("big", False))(l, n)
     of, oc = pm_offset(spec.get("epoch", 0), l)
     return (f + of, c + oc)
 
@@ -178,6 +183,7 @@ def _observe(obs, st, sh):
     obs["atab"], obs["vtab"] = sh.alloc_answers, sh.conv_answers
     obs["events"] = [e for e in sh.events if e[0] != "draw"]
     obs["max_level_drawn"] = sh.max_level_drawn
+    obs["rmse_seen"] = list(getattr(sh, "rmse_seen", []))
 
 
 def replay_payload(spec, obs, **extra):
